@@ -802,6 +802,14 @@ pub fn run_c07_c08(prop: &str) {
     let start = clock::wall();
     let mut found: Vec<(Violation, String)> = vec![];
 
+    if !with_c08 {
+        // service level: the configured limit reaches the table
+        let (reports, svc) = crate::ssim::c07_service_level();
+        rep.set("service_level_session_reports", reports);
+        for v in svc {
+            found.push((v, "service".into()));
+        }
+    }
     if with_c08 {
         // part 1: grid over visiting-order shapes (exhaustive key spaces)
         let (lookups, sets, vio) = c08_grid(thorough);
